@@ -19,7 +19,7 @@ RULE = ( 'random wire graphs on a lattice (1..7 wires, 1..5 segments each, chain
          'classes, single-segment wires present, arc)'
        )
 MIN_EVAL = dict (quick = 1200, thorough = 30000)
-ANCHORS  = ['Geobj.compute_connections', 'Geobj.compute_ground', 'Pulse_Container.add', 'Geobj._add_conn']
+ANCHORS  = ['Geobj.compute_connections', 'Geobj.compute_ground', 'Wire.compute_ground', 'Arc.compute_ground', 'Helix.compute_ground', 'Pulse_Container.add', 'Geobj._add_conn']
 ANCHORS_REQUIRED = ['Geobj.compute_connections', 'Geobj._add_conn']
 MAX_DISCARD = 0.1
 ASSUMPTIONS = ['clusters are built with diameter < tol/2 or gaps >= 1.75 tol so that the reference is unambiguous']
@@ -105,6 +105,24 @@ def make (spec0):
     if arc:
         spec ['geo'] = [arc] + geo
         spec ['tr']  = [['translate', 1.0, tr, None]]
+    if gnd and rng.random () < 0.15:
+        # a curve standing on the ground plane: half circle with both ends grounded, or a helix rising from it
+        if rng.random () < 0.5:
+            n = int (rng.integers (3, 10))
+            spec ['gcurve'] = dict (k = 'a', n = n, radius = scale * 40.0, a1 = 0.0, a2 = 180.0, r = 1e-4 * seg_min, tag = None, ngnd = 2)
+        else:
+            n = int (rng.integers (4, 10))
+            spec ['gcurve'] = dict ( k = 'h', n = n, length = scale * 30.0, turn = scale * 25.0 * float (rng.choice ([1, -1])), r = 1e-4 * seg_min
+                                   , rx1 = scale * 5.0, ry1 = scale * 5.0, tag = None, ngnd = 1)
+        c = {k: v for k, v in spec ['gcurve'].items () if k != 'ngnd'}
+        # curves are collected before wires on the command line; move it far away from the lattice (horizontally)
+        spec ['geo'] = [c] + spec ['geo']
+        spec ['tr']  = [['translate', 1.0, [1000.0 * scale, 0.0, 0.0], 1]] if not any (g.get ('tag') for g in spec ['geo']) else None
+        if spec ['tr'] is None:
+            # explicit tags in play: the automatic tag of the curve is not 1; keep it simple and drop the curve
+            spec ['geo'] = spec ['geo'][1:]
+            spec.pop ('gcurve')
+            spec.pop ('tr')
     return spec
 # end def make
 
@@ -116,6 +134,9 @@ def expected (spec):
     ends  = spec ['ends']
     geo   = [g for g in spec ['geo'] if g ['k'] == 'w']
     off   = np.asarray ((spec.get ('tr') or [[0, 0, [0, 0, 0]]]) [0][2], float)
+    coff  = off
+    if spec.get ('gcurve'):
+        off = np.zeros (3)          # only the curve (tag 1) is translated
     pts   = []
     for g in geo:
         nd = georef.wire_nodes (g ['p1'], g ['p2'], g ['n'])
@@ -138,6 +159,17 @@ def expected (spec):
         sizes.append (len (pl))
         for k in range (len (pl) - 1):
             pts.append (pl [0])
+    if spec.get ('gcurve'):
+        c  = spec ['gcurve']
+        nd = [p + coff for p in georef.nodes_of ({k: v for k, v in c.items () if k != 'ngnd'})]
+        pts += nd [1:-1]
+        q = nd [0].copy (); q [2] = 0.0
+        pts.append (q)
+        n_gnd += 1
+        if c ['ngnd'] == 2:
+            q = nd [-1].copy (); q [2] = 0.0
+            pts.append (q)
+            n_gnd += 1
     if spec.get ('arc'):
         a  = spec ['arc']
         nd = [p + off for p in georef.arc_nodes (a ['n'], a ['radius'], a ['a1'], a ['a2'])]
@@ -215,7 +247,7 @@ def check (spec0):
     classes = sorted (set ('%s%.2g' % (e ['cls'][0], e ['d']) for e in spec ['ends']))
     sig = '|'.join (str (x) for x in
         ( 'gnd' if spec ['media'] else 'free', sorted (sizes), n_gnd, classes
-        , 'seg1' if any (w [2] == 1 for w in spec ['wires']) else '', 'arc' if spec.get ('arc') else ''
+        , 'seg1' if any (w [2] == 1 for w in spec ['wires']) else '', 'arc' if spec.get ('arc') else ('gcurve-' + spec ['gcurve']['k'] if spec.get ('gcurve') else '')
         , 'T' if any (g.get ('tag') for g in spec ['geo']) else 'a'))
     return dict ( status = 'violation' if viol else 'held', sig = sig
                 , nontrivial = bool (sizes and max (sizes) >= 2 or n_gnd), monitors = mon, violations = viol [:6]
